@@ -8,6 +8,7 @@ CONFIG = {
          "args": ["-mode", "concurrent"], "timeout": 600},
     ],
     "trusted_base": [
+        "atomicity of one cmbbs.PasswdUpdate / cache.passwdUpdateMoney call with respect to calls for OTHER slots (own descriptor, own encode buffer): NOT proved; the theorems slot_result_depends_only_on_own_operations / interleavings_agree say what every slot must hold IF calls are atomic, and the `concurrent` pass compares every slot of .PASSWDS and SHM (bystanders included) with that image after G concurrent single-slot writers (resetconc: money writers; resetconcrec: money writers + ptt.SetUserPerm + ptt.GetUser + a registrar)",
         "per-call descriptor design of cache.passwdUpdateMoney (every call opens .PASSWDS itself, so Seek+Write of one call cannot be interleaved with another call's): NOT proved; observed by the `concurrent` pass (G goroutines x N SetUMoney/DeUMoney on pairwise different slots incl. 1 and MAX_USERS, then every byte of .PASSWDS and SHM compared with the expected image)",
         "the slot a registration is given (free-slot search in the SHM user hash) is observed, not modelled: `newuser` lines carry the slot seen through cache.SearchUserRaw after ptt.SetupNewUser",
         "os.OpenFile/Seek/Write on .PASSWDS and encoding/binary little-endian: modelled as a byte-list write (a seek past the end leaves zero bytes); agreement checked on every run, including short, torn and missing files",
